@@ -100,6 +100,30 @@ def evaluate(ctx: Ctx, inst: dict, rng: random.Random) -> None:
             return make_edge(p1, p2, cb.Origin(centre)).length
         check_point("origin", safe(o_third), want_m)
         check_len("origin", safe(o_length), R * want_t)
+    # the same edge object after its vertices moved (optimizer, move_vertex): the arc follows the vertices. Both ends are
+    # moved radially from the centre by a factor k, so the exact arc is the scaled one (mid point and length scale by k)
+    k = rng.choice([0.5, 2.0, 3.0])
+    grow = lambda p: vadd(centre, vmul(vsub(p, centre), k))    # noqa: E731
+    cases = [("angle", cb.Angle(theta, axis), m, theta)]
+    if inst["hd"] != 0:
+        cases.append(("origin", cb.Origin(centre), (m if inst["minor"] else mopp), (theta if inst["minor"] else 2 * math.pi - theta)))
+    for tag, data, mid, ang in cases:
+        def moved():
+            edge = make_edge(p1, p2, data)
+            first = (list(edge.third_point.position), float(edge.length))      # queried once before the move
+            edge.vertex_1.move_to(np.array(grow(p1)))
+            edge.vertex_2.move_to(np.array(grow(p2)))
+            return first, list(edge.third_point.position), float(edge.length)
+        moved.__name__ = f"{tag}.after-move"
+        out = safe(moved)
+        ctx.evaluated()
+        if out is not None:
+            _, third2, len2 = out
+            if vdist(third2, grow(mid)) > tol * max(1.0, k):
+                ctx.violation(f"third-point:{tag}:after-move:{cls}", f"{tag} arc {cls}: after both vertices moved the arc point is "
+                              f"{vdist(third2, grow(mid)) / R:.3g} R away from the exact mid point of the moved arc", dict(base, tag=tag, k=k))
+            if abs(len2 - k * R * ang) > 1e-7 * max(k * R * ang, R):
+                ctx.violation(f"length:{tag}:after-move:{cls}", f"{tag} arc {cls}: length {len2} after the move instead of {k * R * ang}", dict(base, tag=tag, k=k))
     # three-point arcs through other exact circle points
     others = inst["others"]
     for o in rng.sample(others, min(4, len(others))):
